@@ -28,8 +28,10 @@ EN == [op |-> "env"]
 RV == [op |-> "revert"]
 IV == [op |-> "invalid"]
 DS(b) == [op |-> "destroy", ben |-> b]
-C2(s, v) == [op |-> "create2", salt |-> s, value |-> v]
-C1(v) == [op |-> "create", value |-> v]
+C2(s, v) == [op |-> "create2", salt |-> s, value |-> v, init |-> "plain"]
+C1(v) == [op |-> "create", value |-> v, init |-> "plain"]
+C2s(s, v) == [op |-> "create2", salt |-> s, value |-> v, init |-> "store"]
+Kid(c) == <<"c2", c, "t1">>
 Cl(k, t, v, p) == [op |-> "call", kind |-> k, to |-> t, value |-> v, prog |-> p]
 
 \* depth-2 bodies
@@ -57,6 +59,10 @@ Life(c) ==
    <<Cl("delegate", Other(c), 0, <<DS(X1)>>), SL(0)>>,
    <<SS(0, 1), Cl("delegate", Other(c), 0, <<SS(0, 2), C2("s1", 0)>>), SL(0)>>,
    <<DS(X1)>>, <<SS(0, 1), DS(Caller)>>,
+   \* a child whose constructor writes storage and transient storage; destroyed and re-created
+   <<C2s("t1", 0), Cl("call", Kid(c), 0, <<SL(0), TL(1), SS(0, 1)>>)>>,
+   <<[op |-> "create", value |-> 0, init |-> "store"], SL(0)>>,
+   <<Cl("call", Kid(c), 0, <<SL(0), DS(Caller)>>)>>,
    \* the running contract is re-entered; the inner activation writes / self-destructs, the outer one
    \* then writes something else: neither may clobber the other
    <<Cl("call", c, 0, <<SS(0, 2), TS(0, 2)>>), SS(1, 1), SL(0), TL(0)>>,
@@ -76,7 +82,7 @@ Probe(c) ==
 RECURSIVE Targets(_)
 Targets(p) == UNION {IF p[i].op = "call" THEN {p[i].to} \cup Targets(p[i].prog) ELSE {} : i \in 1..Len(p)}
 Runnable(w, c, p) == \A t \in Targets(p) :
-                        IsCon(w, t) \/ (t = Child(c) /\ \E i \in 1..Len(p) : p[i].op = "create2")
+                        IsCon(w, t) \/ (t \in {Child(c), Kid(c)} /\ \E i \in 1..Len(p) : p[i].op = "create2")
 
 Blank == [ok |-> TRUE, obs |-> <<>>]
 Msgs(d) ==
